@@ -1360,17 +1360,13 @@ def qname_value_cases(run: Run, impl: Impl) -> None:
                 else:
                     got = {'ERR:FORG0001': 'ERR:V', 'ERR:FONS0004': 'ERR:K'}.get(r, r)
                 st.count('qname-value:' + fname + ':' + (got if got.startswith('ERR') else 'ok'))
-                # interim finding F10m (repair on fix-c10-6): the prefix is looked up before the white space is removed
-                stripped = s.strip(' \t\n\r')
-                tags = ['F10m'] if (s[:1] in (' ', '\t', '\n', '\r') and ':' in stripped and got == 'ERR:K') else []
                 want = got if (sp == 'ERR' and got.startswith('ERR')) else sp
-                if got != mm and not tags:
-                    # (under the interim finding the model is the repaired code: the deviation is reported once, as a violation)
+                if got != mm:
                     run.disagree(Disagreement(dict(case, path=fname, expr=expr), impl=got, model=mm, what='qname-value-model',
                                               site='qname.py AbstractQName.make'))
                 if got != want:
                     run.disagree(Disagreement(dict(case, path=fname, expr=expr), impl=got, model=mm, spec=sp,
-                                              what='qname-value-vs-static-context', site='qname.py AbstractQName.make', tags=tags))
+                                              what='qname-value-vs-static-context', site='qname.py AbstractQName.make'))
                 elif k == 'ok' and fname in ('ctor-literal', 'cast-literal'):
                     # the same components through the accessor functions and through `eq`
                     uri, pre, loc = (''.join(chr(int(c)) for c in x.split(',')) if x != '_' else '' for x in sp.split(':')[1:4])
